@@ -46,6 +46,7 @@ class FakeAMQPServer:
         self.channels = []
         self.dropped = []        # messages discarded (no DLX / unroutable)
         self.confirm_turns = 0   # loop turns between routing (and delivery) of a publish and its confirm
+        self.settle_turns = 0    # loop turns a basic_ack/nack/reject call takes to return after the server acted on it
 
     def declare(self, name, arguments):
         if name not in self.queues:
@@ -175,16 +176,25 @@ class FakeChannel:
         self.log.append(("ack", delivery_tag))
         self.unacked.pop(delivery_tag, None)
         self._pump(asyncio.get_running_loop())
+        await self._drain()
 
     async def basic_nack(self, delivery_tag, multiple=False, requeue=True, **kw):
         await asyncio.sleep(0)
         self.log.append(("nack", delivery_tag, requeue))
         self._settle(delivery_tag, requeue)
+        await self._drain()
 
     async def basic_reject(self, delivery_tag, requeue=True, **kw):
         await asyncio.sleep(0)
         self.log.append(("reject", delivery_tag, requeue))
         self._settle(delivery_tag, requeue)
+        await self._drain()
+
+    async def _drain(self):
+        # the frame is written (and acted upon by the server) before the client call returns; a redelivery
+        # caused by it may therefore reach the consumer callback first
+        for _ in range(self.server.settle_turns):
+            await asyncio.sleep(0)
 
     def _settle(self, delivery_tag, requeue):
         loop = asyncio.get_running_loop()
